@@ -30,6 +30,7 @@ raw entries. Same namespace as Props/C10.lean.
 import LinVerif.Props.C10
 import LinVerif.Lemmas.C10Heap
 import LinVerif.Lemmas.C10Merge
+import LinVerif.Lemmas.C10MergeCursor
 import LinVerif.Generated.C10Ops
 
 set_option linter.unusedSimpArgs false
@@ -218,6 +219,85 @@ theorem forward_merge_sample :
       = some [(1, { bitmap := [(0, [0, 3, 5]), (1, [0]), (2, [0, 1, 7])], vals := [10, 11, 7, 20, 30, 31, 32] }),
               (2, rawOf f2)] := by
   decide
+
+/-! ### round 10: the cursor invariant is ESTABLISHED (the two points left partial in round 8) -/
+
+/-- the merged bitmap `m.seriesIDs` as the roaring contract gives it (sorted duplicate-free union): high
+keys ascending, low keys ascending, and every series id of every input is in it -/
+def MergedBitmapOK (bm : List (Nat × List Nat)) (css : List (List Container)) : Prop :=
+  (bm.map (·.1)).Pairwise (· < ·) ∧ (∀ c ∈ bm, c.2.Pairwise (· < ·)) ∧
+  ∀ c ∈ bm, ∀ cs ∈ css, ∀ x ∈ (contAt cs c.1).map (·.1), x ∈ c.2
+
+/-- **forward_scanners_establish_cursor_invariant.** For ANY number of well-formed inputs (containers ascending
+by high key, low keys ascending) and any merged bitmap satisfying the union contract, the scanners as
+`newTagForwardScanner` creates them go through step 4 of `Merge` — `if s.highKey < highKey { nextContainer }`
+at the head of every `scan` — without ever indexing `tagValueIDs` out of range, and the block written for
+each merged container is `blockSpec` of the inputs' OWN containers for that high key: the cursor invariant
+`ScanOK` of `forward_scan_cursor_computes_block` holds at the start of every container (`norm_scanOK`), is
+carried between containers by `CurInv` (`inv_moves`), and holds initially (`new_inv`). Induction over the
+merged containers; no bound on inputs, containers or series. -/
+theorem forward_scanners_establish_cursor_invariant (css : List (List Container)) (hwf : ∀ cs ∈ css, CsWF cs)
+    (bm : List (Nat × List Nat)) (hbm : MergedBitmapOK bm css) :
+    containerBlocks bm (css.map (fun cs => MScan.new (rawOf cs)))
+      = some (bm.map (fun c => blockSpec c.2 (css.map (contAt · c.1)))) :=
+  containerBlocks_spec css hwf bm _ 0 hbm.1 hbm.2.1 hbm.2.2 (fun _ _ => Nat.zero_le _) (new_inv_all 0 css)
+
+/-- **forward_block_low_key_by_low_key.** What `blockSpec` is: for each merged low key in ascending order,
+the value ids the inputs' containers pair with THAT low key (`look`) — so for disjoint inputs exactly one
+value id per series, the series' own, and the block has the merged container's cardinality. -/
+theorem forward_block_low_key_by_low_key (ls : List Nat) (rems : List (List (Nat × ValId)))
+    (hasc : ls.Pairwise (· < ·)) (hr : ∀ r ∈ rems, (r.map (·.1)).Pairwise (· < ·))
+    (hsub : ∀ r ∈ rems, ∀ x ∈ r.map (·.1), x ∈ ls) :
+    blockSpec ls rems = ls.flatMap (fun l => look l rems) :=
+  blockSpec_look ls rems hasc hr hsub
+
+/-- disjoint inputs (`look` a singleton for every merged low key): the block has exactly the container's
+cardinality, so `forward_blocks_decode` applies -/
+theorem forward_block_cardinality (ls : List Nat) (rems : List (List (Nat × ValId)))
+    (hasc : ls.Pairwise (· < ·)) (hr : ∀ r ∈ rems, (r.map (·.1)).Pairwise (· < ·))
+    (hsub : ∀ r ∈ rems, ∀ x ∈ r.map (·.1), x ∈ ls) (hone : ∀ l ∈ ls, (look l rems).length = 1) :
+    (blockSpec ls rems).length = ls.length := by
+  rw [blockSpec_look ls rems hasc hr hsub]
+  clear hasc hsub
+  induction ls with
+  | nil => rfl
+  | cons l t ih =>
+    simp only [List.flatMap_cons, List.length_append, List.length_cons]
+    rw [hone l (by simp), ih (fun l' hl' => hone l' (List.mem_cons_of_mem _ hl'))]
+    omega
+
+/-- **forward_merge_raw_value_region.** One whole `Merge` call on the layouts of well-formed inputs, whatever
+the pooled buffer held: it succeeds, and the entry written is the merged bitmap followed by one `blockSpec`
+block per merged container. -/
+theorem forward_merge_raw_value_region (css : List (List Container)) (hwf : ∀ cs ∈ css, CsWF cs)
+    (buf : List ValId)
+    (hbm : MergedBitmapOK ((css.map rawOf).foldl (fun acc e => bmOr acc e.bitmap) []) css) :
+    (mergeRaw true buf (css.map rawOf)).map (·.1)
+      = some { bitmap := (css.map rawOf).foldl (fun acc e => bmOr acc e.bitmap) [],
+               vals := (((css.map rawOf).foldl (fun acc e => bmOr acc e.bitmap) []).map
+                 (fun c => blockSpec c.2 (css.map (contAt · c.1)))).flatten } := by
+  have h1 := mergeContainers_true_blocks ((css.map rawOf).foldl (fun acc e => bmOr acc e.bitmap) [])
+    ((css.map rawOf).map MScan.new) buf []
+  have h2 := forward_scanners_establish_cursor_invariant css hwf _ hbm
+  have h3 : (css.map rawOf).map MScan.new = css.map (fun cs => MScan.new (rawOf cs)) := by
+    simp [List.map_map, Function.comp_def]
+  rw [h3, h2] at h1
+  unfold mergeRaw
+  simp only [if_true]
+  rw [h3]
+  cases hm : mergeContainers true ((css.map rawOf).foldl (fun acc e => bmOr acc e.bitmap) [])
+      (css.map (fun cs => MScan.new (rawOf cs))) buf [] with
+  | none => simp [hm] at h1
+  | some r => simp [hm] at h1; simp [h1]
+
+/-- non-vacuity: the hypotheses hold for the sample of `forward_merge_sample` (the union contract is
+checked on `bmOr`'s output), and `look` is a singleton for its disjoint inputs -/
+example :
+    let f1 : List Container := [(0, [(0, 10), (5, 7)]), (2, [(0, 30), (1, 31)])]
+    let f2 : List Container := [(0, [(3, 11)]), (1, [(0, 20)]), (2, [(7, 32)])]
+    ([f1, f2].map rawOf).foldl (fun acc e => bmOr acc e.bitmap) [] = [(0, [0, 3, 5]), (1, [0]), (2, [0, 1, 7])] ∧
+    look 3 [contAt f1 0, contAt f2 0] = [11] ∧
+    blockSpec [0, 3, 5] [contAt f1 0, contAt f2 0] = [10, 11, 7] := by decide
 
 /-! ## (D) degenerate patterns of the four atomic filters -/
 
